@@ -70,13 +70,20 @@ Definition capture (d : domain) (tz : bool) (F S : arr) : res arr :=
 (* utils.integral along the last axis (axis=-1) or the first (axis=0) of a 1-D/2-D array *)
 Definition column (M : mat) (j : nat) : vec := map (fun r => nthQ r j) M.
 Definition ncols (M : mat) : nat := match M with [] => O | r :: _ => length r end.
-Definition integral (d : domain) (a : arr) (axis_last : bool) : res arr :=
-  match a with
-  | A1 v => Ok (A0 (integ d true v))
-  | A2 M => if axis_last then Ok (A1 (map (integ d true) M))
-            else Ok (A1 (map (fun j => integ d true (column M j)) (seq 0 (ncols M))))
-  | A3 T => if axis_last then Ok (A2 (map (map (integ d true)) T)) else Err OtherError
-  | A0 _ => Err OtherError
+Definition cols_integ (d : domain) (M : mat) : vec := map (fun j => integ d true (column M j)) (seq 0 (ncols M)).
+(* axis counted from the front: 0 .. rank-1 *)
+Definition integral (d : domain) (a : arr) (axis : nat) : res arr :=
+  match a, axis with
+  | A1 v, O => Ok (A0 (integ d true v))
+  | A2 M, 1%nat => Ok (A1 (map (integ d true) M))
+  | A2 M, O => Ok (A1 (cols_integ d M))
+  | A3 T, 2%nat => Ok (A2 (map (map (integ d true)) T))
+  | A3 T, 1%nat => Ok (A2 (map (cols_integ d) T))
+  | A3 T, O =>
+      let M0 : mat := nth 0 T [] in
+      Ok (A2 (map (fun j => map (fun k => integ d true (map (fun M => nthQ (nthV M j) k) T)) (seq 0 (ncols M0)))
+                  (seq 0 (length M0))))
+  | _, _ => Err OtherError
   end.
 
 (* ---------- correspondence ---------- *)
@@ -88,13 +95,12 @@ Definition arr_close (tol : Q) (m i : arr) : bool :=
   | A3 a, A3 b => tclose 0 tol a b
   | _, _ => false
   end.
-Record case := { c_kind : nat;    (* 0 calculate_capture, 1 integral(axis -1), 2 integral(axis 0) *)
+Record case := { c_kind : nat;    (* 0 calculate_capture, 1+k integral along axis k (counted from the front) *)
                  c_dom : domain; c_trapz : bool; c_F : arr; c_S : arr;
                  c_tol : Q; c_impl : res arr }.
 Definition model (c : case) : res arr :=
   match c_kind c with
   | O => capture (c_dom c) (c_trapz c) (c_F c) (c_S c)
-  | 1%nat => integral (c_dom c) (c_S c) true
-  | _ => integral (c_dom c) (c_S c) false
+  | S k => integral (c_dom c) (c_S c) k
   end.
 Definition verdict (c : case) : bool := res_agree (arr_close (c_tol c)) (model c) (c_impl c).
